@@ -65,7 +65,7 @@ ZL == IF "zl_eof" \in Dev THEN "eof" ELSE "eproto"
 TR == IF "ux_full_count" \in Dev THEN "full" ELSE "min"
 
 \* ---- history part: predicates on the logged history only -----------------
-ConnErr(err) == err \notin {0, EAGAIN, EMSGSIZE, EINVAL}
+ConnErr(err) == err \notin {0, EAGAIN, EMSGSIZE, EINVAL, 4}   \* 4 = EINTR: an interrupted blocking call
 
 HistChecks(ln, e) ==
   LET h == hist[e]
@@ -99,8 +99,10 @@ HistChecks(ln, e) ==
    \* C01 / C02: content, order, truncation
    \* ok: 1 intact, 0 altered, 2 altered and the unexpected bytes are those of a send that was refused with
    \* EAGAIN (history class "refused_bytes"), 3 not judged any more after a classified mismatch
-   Chk(~okR \/ ln.ok \in {1, 3}, IF Stream(tp) THEN "C02.content" ELSE "C01.content",
+   Chk(~okR \/ ln.ok \in {1, 3, 4}, IF Stream(tp) THEN "C02.content" ELSE "C01.content",
        IF ln.ok = 2 THEN "refused_bytes" ELSE "intact", ln.ok),
+   \* ok = 4: the message is one whose xcm_send returned -1 (C03: a failed send is never delivered)
+   Chk(~okR \/ ln.ok # 4, "C03.delivered_failed", 1, ln.ok),
    Chk(~okR \/ ln.ret <= ln.cap, IF Stream(tp) THEN "C02.range" ELSE "C01.trunc", ln.cap, ln.ret),
    Chk(~(okR /\ msgT /\ ln.ok = 1) \/ ln.mi = h.nok + 1, "C01.order", h.nok + 1, IF isR THEN ln.mi ELSE 0),
    Chk(~(okR /\ msgT /\ ln.ok = 1 /\ ~raw) \/ ln.ret = Min(ln.fl, ln.cap), "C01.len", 0, IF isR THEN ln.ret ELSE 0),
@@ -322,6 +324,88 @@ StepCrash(ln) ==
   /\ mm' = TRUE
   /\ UNCHANGED <<eps, frames, nrcv, hist>> /\ Keep
 
+\* after a blocking call the awaited condition is whatever its last internal wait left behind: it is
+\* not logged, so it is inferred from the registration observed (em), as the guidance allows for unlogged variables
+CondFromEm(ep, em) ==
+  IF em < 0 \/ (ep.l1 # "ready" /\ ~Seq1(ep.tp)) THEN ep
+  ELSE [ep EXCEPT !.cond = (IF HasBit(em, EPIN) THEN RECEIVABLE ELSE 0) +
+                            (IF HasBit(em, EPOUT) /\ ep.sbuf = 0 THEN SENDABLE ELSE 0)]
+
+\* ---- blocking-mode calls (xcm_send / xcm_receive on a blocking socket, run in a helper thread) -------
+\* They are validated as one big step: the loop of transport calls and waits in xcm.c must have the
+\* same net effect as a single call under the accumulated credits.  bs0 / br0 mark the start (the
+\* frame of a blocking send occupies the wire layout from then on), bs1 / br1 carry the result.
+EINTR == 4
+
+StepBlkSend0(ln) ==
+  LET e == ln.e
+      nf == IF ~Stream(tp) /\ ln.len \in 1..MaxMsg THEN [frames EXCEPT ![e] = Append(@, ln.len)] ELSE frames
+  IN /\ frames' = nf
+     /\ UNCHANGED <<eps, nrcv, hist, mm, nv>> /\ Keep
+
+StepBlkSend1(ln) ==
+  LET e == ln.e
+      ls == [ln EXCEPT !.op = IF ln.rty = 1 THEN "f" ELSE "s"]
+      hcs == IF ln.ret = -2 THEN <<>> ELSE HistChecks(ls, e) \o IdleChecks(ln, e)
+      sizeErr == ln.ret = -1 /\ ln.err \in {EMSGSIZE, EINVAL}
+      okret == IF Stream(tp) THEN ln.len ELSE 0
+      \* xcm_set_blocking(true) first finishes outstanding work (socket_finish): the pending frame is flushed
+      ep0 == IF Framing(tp) /\ ~eps[e].bad THEN Flush(eps[e], INF, EAGAIN).ep ELSE eps[e]
+      res == IF Framing(tp) THEN TcpSend(ep0, ln.len, IF sizeErr THEN 0 ELSE INF, EAGAIN)
+             ELSE IF Stream(tp) THEN BtcpSend(eps[e], ln.len, INF, EAGAIN) @@ [started |-> FALSE]
+             ELSE UxSend(eps[e], ln.len, 1, EAGAIN) @@ [started |-> FALSE]
+      judged == ln.rty = 0 /\ ((ln.ret = okret /\ (ln.len > 0 \/ Stream(tp))) \/ sizeErr)
+      mcs == IF judged
+             THEN RetChecks(ln, res, IF sizeErr THEN "C03.size" ELSE "MM") \o CntChecks(ln, e, res, FALSE)
+             ELSE <<>>
+      \* mi = 1 on a failed blocking send: the peer had already been handed this very message
+      all == hcs \o <<Chk(~(ln.ret = -1 /\ ln.mi = 1), "C03.delivered_failed", 0, ln.mi)>> \o (IF mm THEN <<>> ELSE mcs)
+  IN /\ Report(ln, all)
+     /\ eps' = [eps EXCEPT ![e] = IF judged /\ ~mm THEN Update(CondFromEm(res.ep, ln.em[e])) ELSE @]
+     /\ hist' = [hist EXCEPT ![e] = IF ln.ret = -2 THEN @ ELSE HistNext(ls, e)]
+     \* a blocking send that failed with the connection, was interrupted or hung: the model part stops here
+     /\ mm' = (mm \/ ~judged \/ IsMM(all) \/ \E i \in 1..Len(all) : ~all[i].c /\ i > Len(hcs) + 1)
+     /\ nv' = nv + Len(Failed(all))
+     /\ UNCHANGED <<frames, nrcv>> /\ Keep
+
+StepBlkRecv1(ln) ==
+  LET e == ln.e
+      \* (rty = 1: xcm_set_blocking itself failed, a finish-like call; the receive was never made)
+      lr == [ln EXCEPT !.op = IF ln.rty = 1 THEN "f" ELSE "r"]
+      hcs == IF ln.ret = -2 THEN <<>> ELSE HistChecks(lr, e) \o IdleChecks(ln, e)
+      cr == Cred(ln, e)
+      h == NextHdr(e)
+      intr == ln.ret = -1 /\ ln.err = EINTR
+      \* (the flush of the pending frame by xcm_set_blocking(true) and by the receive itself share the credit)
+      \* the loop in xcm_receive may take several transport calls: a short read (EAGAIN from the framing
+      \* layer itself) followed by the terminal answer of the lower layer is two of them
+      rt2 == IF intr THEN EAGAIN ELSE cr.rterm
+      Rcv(ep, rc, rt) ==
+             IF Framing(tp) THEN TcpReceive(ep, ln.cap, cr.wc, cr.werr, rc, rt, h, ZL)
+             ELSE IF Stream(tp)
+             THEN LET b == BtcpReceive(ep, ln.cap, rc, rt)
+                  IN [ep |-> b.ep, ret |-> b.ret, err |-> b.err, wused |-> 0, rused |-> b.used, delivered |-> b.ret > 0]
+             ELSE LET u == UxReceive(ep, ln.cap, rc, rt, IF cr.ru >= 1 THEN ln.k[5] ELSE 0, TR)
+                  IN [ep |-> u.ep, ret |-> u.ret, err |-> u.err, wused |-> 0, rused |-> u.used, delivered |-> u.ret > 0]
+      p1 == Rcv(eps[e], cr.rc, EAGAIN)
+      res == IF p1.ret = -1 /\ p1.err = EAGAIN /\ rt2 # EAGAIN THEN Rcv(p1.ep, cr.rc - p1.rused, rt2) ELSE p1
+      nn == IF res.delivered /\ ~Stream(tp) THEN [nrcv EXCEPT ![e] = @ + 1] ELSE nrcv
+      \* hung although a complete message / byte is there for it (C04: blocking calls return)
+      owed == IF Framing(tp) THEN eps[e].l1m = "model" /\ h \in 1..MaxMsg /\ ln.av[e] >= 0 /\ eps[e].rbuf + ln.av[e] >= HdrLen + h
+              ELSE ln.av[e] > 0
+      mcs == IF ln.ret = -2 THEN <<Chk(~owed, "C04.blocked", 0, ln.av[e])>>
+             ELSE IF intr \/ ln.rty = 1 THEN <<>>
+             ELSE RetChecks(ln, res, IF res.delivered THEN "C01.count" ELSE IF res.ret = 0 THEN "C06.drain" ELSE "MM")
+                  \o CntChecks(ln, e, res, FALSE)
+      all == hcs \o (IF mm THEN <<>> ELSE mcs)
+  IN /\ Report(ln, all)
+     /\ eps' = [eps EXCEPT ![e] = IF ln.ret = -2 \/ mm THEN @ ELSE Update(CondFromEm(res.ep, ln.em[e]))]
+     /\ nrcv' = (IF ln.ret = -2 \/ mm THEN nrcv ELSE nn)
+     /\ hist' = [hist EXCEPT ![e] = IF ln.ret = -2 THEN @ ELSE HistNext(lr, e)]
+     /\ mm' = (mm \/ ln.ret = -2 \/ ln.rty = 1 \/ IsMM(all) \/ \E i \in 1..Len(all) : ~all[i].c /\ i > Len(hcs))
+     /\ nv' = nv + Len(Failed(all))
+     /\ UNCHANGED frames /\ Keep
+
 Next ==
   /\ l <= NL
   /\ l' = l + 1
@@ -332,6 +416,9 @@ Next ==
        [] ln.op = "f" -> StepFinish(ln)
        [] ln.op = "a" -> StepAwait(ln)
        [] ln.op \in {"c", "p", "w", "Wh"} -> StepEnv(ln)
+       [] ln.op = "bs0" -> StepBlkSend0(ln)
+       [] ln.op = "bs1" -> StepBlkSend1(ln)
+       [] ln.op = "br1" -> StepBlkRecv1(ln)
        [] ln.op = "crash" -> StepCrash(ln)
        [] OTHER -> UNCHANGED <<tp, raw, eps, frames, nrcv, hist, mm, nv>>
 
